@@ -2,6 +2,7 @@ import LospanVerif.Basic
 import LospanVerif.Driver.Aes
 import LospanVerif.Model.Cmac
 import LospanVerif.Driver.PhyIO
+import LospanVerif.Driver.GwIO
 /-
   verifdrv: line-protocol driver. One request per line on stdin, one answer per line on stdout.
   Evaluates the executable Model and the executable Spec on the case; the Go harness compares
@@ -27,31 +28,40 @@ def handleAes : List String → String
     | _, _ => "bad-args"
   | _ => "bad-args"
 
-def handle (line : String) : String :=
-  match (line.trimAscii.toString.splitOn " ").filter (· ≠ "") with
-  | [] => "empty"
-  | "cmac" :: rest => handleCmac rest
-  | "aes" :: rest => handleAes rest
-  | "phy.dec" :: rest => handlePhyDec rest
-  | "phy.enc" :: rest => handlePhyEnc rest
-  | "phy.msg" :: rest => handlePhyMsg rest
-  | "set.ops" :: rest => handleSetOps rest
-  | "mac.enc" :: rest => handleMacEnc rest
-  | "dev.rx" :: rest => handleDevRx rest
-  | "dev.tx" :: rest => handleDevTx rest
-  | op :: _ => s!"bad-op {op}"
+structure DrvState where
+  gw : GwDrv := {}
+  deriving Inhabited
 
-partial def loop (hin : IO.FS.Stream) (hout : IO.FS.Stream) : IO Unit := do
+def handle (st : DrvState) (line : String) : DrvState × String :=
+  match (line.trimAscii.toString.splitOn " ").filter (· ≠ "") with
+  | [] => (st, "empty")
+  | "cmac" :: rest => (st, handleCmac rest)
+  | "aes" :: rest => (st, handleAes rest)
+  | "phy.dec" :: rest => (st, handlePhyDec rest)
+  | "phy.enc" :: rest => (st, handlePhyEnc rest)
+  | "phy.msg" :: rest => (st, handlePhyMsg rest)
+  | "set.ops" :: rest => (st, handleSetOps rest)
+  | "mac.enc" :: rest => (st, handleMacEnc rest)
+  | "dev.rx" :: rest => (st, handleDevRx rest)
+  | "dev.tx" :: rest => (st, handleDevTx rest)
+  | op :: rest =>
+    if op.startsWith "gw." then
+      let (g, out) := handleGw st.gw (op :: rest)
+      ({ st with gw := g }, out)
+    else (st, s!"bad-op {op}")
+
+partial def loop (hin : IO.FS.Stream) (hout : IO.FS.Stream) (st : DrvState) : IO Unit := do
   let line ← hin.getLine
   if line.isEmpty then return ()
-  hout.putStrLn (handle line)
+  let (st', out) := handle st line
+  hout.putStrLn out
   hout.flush
-  loop hin hout
+  loop hin hout st'
 
 def main (_args : List String) : IO UInt32 := do
   let hin ← IO.getStdin
   let hout ← IO.getStdout
-  loop hin hout
+  loop hin hout {}
   hout.flush
   return 0
 
